@@ -2,7 +2,8 @@
 
 use std::collections::BTreeMap;
 
-use chitchat::{ChitchatId, DeletionStatus};
+use chitchat::verif::verif_dump_message;
+use chitchat::{ChitchatId, ChitchatMessage, DeletionStatus, Deserializable};
 
 use crate::sim::{mk_id, mk_id6, NodeSpec, Pred, Sim};
 use crate::util::Prng;
@@ -97,6 +98,8 @@ pub async fn run_suite(suite: &str, seed: u64, cases: usize) -> (String, String)
         let name = format!("{suite}-{seed}-{case}");
         match suite {
             "kv" => gen_kv(&mut sim, &mut crng, &mut stats, &name).await,
+            // every 25th proc case is the scripted "member header refused at the datagram limit" history
+            "proc" if case % 25 == 24 => gen_proc_header_boundary(&mut sim, &mut crng, &mut stats, &name).await,
             "proc" => gen_proc(&mut sim, &mut crng, &mut stats, &name).await,
             "delta" => gen_delta(&mut sim, &mut crng, &mut stats, &name).await,
             "fill" => gen_fill(&mut sim, &mut crng, &mut stats, &name).await,
@@ -1911,6 +1914,89 @@ pub async fn gen_select(sim: &mut Sim, rng: &mut Prng, stats: &mut Stats, name: 
 // the tombstone after the grace period, a fresh node C syncs with the owner, then with the stale
 // B (the weak acceptance), then with the owner again; optionally a further fresh node D syncs
 // with C (the resurrected key is relayed).
+// A reply filled to the datagram limit so that, after the sender's own (unknown to the peer, hence
+// first) member, the HEADER of the next stale member no longer fits although one of its small
+// key-values would: the delta must end there.  S owns a ~64 kB incompressible value; X (long id)
+// has five small keys of which the peer B already knows four; B asks S.  The value's length is
+// found by bisection on throwaway simulations (same code, nothing recorded): the smallest length
+// for which S's answer no longer names X.  Then the history goes on: B answers, B and S gossip
+// again (a copy of S that looked ahead of S would now be sent back to S), X and B gossip.
+fn header_boundary_prefix(sim: &mut Sim, xname: &str, big: &str, grace: u64) -> Option<Vec<u8>> {
+    let mk = |id: ChitchatId| {
+        let mut s = NodeSpec::simple(id);
+        s.kv_grace_ns = grace;
+        s
+    };
+    sim.join(mk(mk_id("s", 0, 2000)));
+    sim.join(mk(mk_id(xname, 0, 2001)));
+    sim.join(mk(mk_id("b", 0, 2002)));
+    sim.set(0, "g", big);
+    sim.set(0, "a", "x");
+    for i in 0..4 {
+        sim.set(1, &format!("k{i}"), "v");
+    }
+    full_handshake(sim, 2, 1); // B knows X up to version 4
+    sim.set(1, "k4", "");
+    full_handshake(sim, 0, 1); // S knows all of X
+    let syn = sim.syn(2)?;
+    sim.deliver(0, &syn)
+}
+
+fn reply_node_count(bytes: &[u8]) -> usize {
+    let mut buf = bytes;
+    match ChitchatMessage::deserialize(&mut buf) {
+        Ok(m) => crate::sim::reply_order_and_len(&verif_dump_message(&m)).0.len(),
+        Err(_) => 0,
+    }
+}
+
+async fn gen_proc_header_boundary(sim: &mut Sim, rng: &mut Prng, stats: &mut Stats, name: &str) {
+    let grace: u64 = 1_000_000;
+    let xname: String = format!("x{}", "y".repeat(rng.range(60, 160) as usize));
+    let pool = high_entropy_string(rng, 65_600);
+    // prefix of `pool` cut at a character boundary at or below `n` bytes
+    let cut = |n: usize| -> &str {
+        let mut n = n.min(pool.len());
+        while !pool.is_char_boundary(n) {
+            n -= 1;
+        }
+        &pool[..n]
+    };
+    // bisection: lo = a length for which X is still named, hi = one for which it is not
+    let (mut lo, mut hi) = (60_000usize, 65_550usize);
+    let probe = |len: usize| -> usize {
+        let mut p = Sim::new();
+        p.start_case("probe");
+        p.no_events();
+        header_boundary_prefix(&mut p, &xname, cut(len), grace).map(|r| reply_node_count(&r)).unwrap_or(0)
+    };
+    if probe(lo) < 2 || probe(hi) >= 2 {
+        // unexpected sizes (should not happen): fall back to an ordinary case
+        stats.bump("header_boundary_not_found");
+        return gen_proc(sim, rng, stats, name).await;
+    }
+    while hi - lo > 1 {
+        let mid = (lo + hi) / 2;
+        if probe(mid) >= 2 { lo = mid } else { hi = mid }
+    }
+    // `hi` = smallest length whose answer leaves X out; a little more still leaves room for a key-value
+    let len = hi + rng.below(30) as usize;
+    sim.start_case(name);
+    sim.no_events();
+    stats.bump("cases_header_boundary");
+    let synack = header_boundary_prefix(sim, &xname, cut(len), grace);
+    if let Some(synack) = synack {
+        if let Some(ack) = sim.deliver(2, &synack) {
+            sim.deliver(0, &ack);
+        }
+    }
+    // B's copy of S goes back to S, twice, and around
+    full_handshake(sim, 2, 0);
+    full_handshake(sim, 0, 2);
+    full_handshake(sim, 1, 2);
+    full_handshake(sim, 2, 0);
+}
+
 fn full_handshake(sim: &mut Sim, a: usize, b: usize) {
     if let Some(syn) = sim.syn(a) {
         if let Some(synack) = sim.deliver(b, &syn) {
